@@ -805,7 +805,7 @@ def _check_dump(viol, plan, S1, mirror, visible, status, progress, texts, handed
                     viol("C17", "dump-wrong-image", "%s was replaced by %s in %r, the map says %s" % (orig, img, mp, d[orig]))
 
 
-def extract(line, out_line, secrets, collapse_ws):
+def extract(line, out_line, secrets, collapse_ws, loose_enclosing=False):
     """Recover the tokens at the generated positions of `line` from its output line.
 
     Literal segments are matched verbatim (inner whitespace runs flexible when `collapse_ws`);
@@ -824,7 +824,10 @@ def extract(line, out_line, secrets, collapse_ws):
         else:
             meta = s[2] if len(s) > 2 else {}
             pre, post = re.escape(meta.get("pre", "")), re.escape(meta.get("post", ""))
-            if s[0] == "sec":
+            if s[0] == "sec" and loose_enclosing:
+                # whatever became of the enclosing text: only the token between enclosing characters is wanted
+                rx += r"""["'\[{\\]*(\S+?)["'\]};,\\]*"""
+            elif s[0] == "sec":
                 rx += pre + r"(\S+?)" + post
             elif s[0] in ("a4", "k4"):
                 rx += r"((?<![0-9.])[0-9]+(?:\.[0-9]+){3}(?:/[0-9]{1,3})?(?![0-9.]))"
